@@ -137,7 +137,7 @@ def newmark_case(args):
         tb = traceback.extract_tb(ex.__traceback__)
         last = tb[-1]
         inrepo = "/pyyeti/" in last.filename and "/verif/" not in last.filename
-        st = "failed" if (inrepo and (last.line or "").strip().startswith("raise")) else "undecided"
+        st = "undecided"          # an exception on symbolic stand-ins is a tool limit, never a violation by itself (concrete arms report real exceptions)
         return [dict(name="SolveNewmark%s::symbolic run completes" % (args,), status=st, seconds=time.time() - t0,
                      detail={"reason": "%r at %s:%s" % (ex, last.filename, last.lineno)})]
 
@@ -336,7 +336,7 @@ def cdf_case(args):
         tb = traceback.extract_tb(ex.__traceback__)
         last = tb[-1]
         inrepo = "/pyyeti/" in last.filename and "/verif/" not in last.filename
-        st = "failed" if (inrepo and (last.line or "").strip().startswith("raise")) else "undecided"
+        st = "undecided"          # an exception on symbolic stand-ins is a tool limit, never a violation by itself (concrete arms report real exceptions)
         return [dict(name="cd_as_force%s::symbolic run completes" % (args,), status=st, seconds=time.time() - t0,
                      detail={"reason": "%r at %s:%s" % (ex, last.filename, last.lineno)})]
 
